@@ -9,6 +9,15 @@ handler-mode combinations (argument omitted / None / callable / False, for
 both handlers).  The oracle is `expect_connect` / `expect_status`
 below (a function of the configuration and the server behaviour only) plus what
 the independent server decoded from the wire.
+
+Objects are not only used fresh and alone: SEQUENCES of 2-4 operations are
+enumerated on one re-used Connection object (after conversations that ended in
+an error and after ones that ended well) and on 2-3 Connection objects that
+coexist in the process (constructed up front or at first use, used
+alternately, against different servers reporting different versions); every
+operation of a sequence is judged by the same single-operation oracle, from
+the observations of its own window (callbacks of its object, TCP connections
+opened during it).
 """
 import errno
 import io
@@ -54,16 +63,76 @@ RULE = ('One execution per case on the real Connection over the virtual '
         'behaviours plus close after response / after pong x handle_status '
         '{omitted, None, custom, False} x handle_ping {omitted (=False), '
         'None, custom, False} x '
-        'delivery.  All cases are distinct by construction (de-duplicated '
+        'delivery.  SEQUENCES (one execution each, every operation judged '
+        'by the single-operation oracle above from its own window: the '
+        'callbacks of its object and the TCP connections opened between '
+        'its call and quiescence; an object whose previous conversation is '
+        'still open - it logged in - is disconnect()ed by the driver before '
+        'it is used again, and what happens during that is not judged).  '
+        'REUSE, one Connection object (allowed {47, 757}; all versions; the '
+        'full R with initial_version 340; thorough four more incl. names '
+        'and auth): first operation in {connect() against a server that '
+        'reports an allowed non-latest / a supported-but-not-allowed / a '
+        'known-unsupported / an unknown number, sends {}, sends no version '
+        'object, closes at connect / after the handshake / after the '
+        'request; status() (custom+custom, off+default handlers) against '
+        'the latest allowed number, {}, an unknown number, close at connect '
+        '/ after request / after response} x second operation in {status() '
+        'answered normally x all 16 handler modes; status() against {}, '
+        'close after request / response / pong x 4 handler modes (thorough '
+        '16); connect() against a server reporting the latest / earliest '
+        'allowed / not allowed / unsupported number, {}, no version object, '
+        'close after request} x {eager, lazy}; and three operations: first '
+        'x 6 second (status custom+custom, off+off, default+none closed '
+        'after the request; connect refused / {} / login) x 7 third (status '
+        'in 4 handler modes, status closed after the request, connect login '
+        '/ refused).  OBJECTS, 2 or 3 Connection objects with the SAME '
+        'allowed set (all versions; {47, 757}; R; thorough two more) and '
+        'different hosts/ports, all constructed before the first operation '
+        '(2 objects also: each constructed at its first use), used in the '
+        'orders AB, ABA, ABC (thorough: ABAB, AAB, ABB, ABCA, ABCB); each '
+        'slot in {connect() that logs in with a version that differs per '
+        'object, connect() refused (unsupported number), connect() falling '
+        'back (close after request), status() custom+custom, status() '
+        'off+none} (all combinations) x {eager, lazy}; an object that logged '
+        'in stays logged in while the others are used.  Expected outcome of '
+        'an operation = that of a fresh, lone object with the same '
+        'configuration, except that a connect() expected to end in a login '
+        'commits the object to that version (a later operation on it is '
+        'accepted against the singleton set or against the constructor\'s '
+        'set).  The fallback with default = NEWEST allowed version (no '
+        'initial_version, or initial_version naming it by number / name) '
+        'against a server that closes at connect / after the handshake / '
+        'after the request / sends no version object is enumerated for '
+        'every non-singleton set x {eager, lazy}; every login outcome '
+        'requires exactly one status connection followed by exactly one '
+        'login connection (one login connection when a single version is '
+        'allowed), counted by the independent servers (at most 4 TCP '
+        'connections per operation are accepted, the 5th is refused).  '
+        'All cases are distinct by construction (de-duplicated '
         'before execution) and all are non-trivial.  states = distinct '
         '(configuration class, server behaviour class, delivery, observed '
         'outcome) abstractions; transitions = protocol frames observed on the '
-        'wire (both directions); traces = executions.')
+        'wire (both directions); traces = executions.  A violation is '
+        'recorded with the position of its execution in its worker process '
+        '(chunks of the deterministic case list executed before it): '
+        'replay runs the case alone in a fresh process and, if it passes '
+        'alone, again after repeating those earlier executions, so that a '
+        'failure caused by process-wide state carried from one Connection '
+        'object to the next is reproduced.')
 ASSUMPTIONS = [
     'publication order and the supported/known tables are read from the tree '
     'under test (minecraft.KNOWN_PROTOCOL_VERSIONS, SUPPORTED_PROTOCOL_VERSIONS,'
     ' SUPPORTED_MINECRAFT_VERSIONS); their correctness is C08\'s subject',
-    'canonical thread schedule only (schedules are C12/C16\'s subject)',
+    'canonical thread schedule only (schedules are C12/C16\'s subject); '
+    'operations of a sequence do not overlap in time: each starts at '
+    'quiescence',
+    'sequences: what a user-initiated disconnect() of a logged-in object '
+    'does (callbacks, exceptions) is outside the windows judged here '
+    '(C11/C16); a connect() that logged in leaves the object committed to '
+    'the negotiated version (connection.py: handle_proto_version narrows '
+    'allowed_proto_versions) - the statement does not say either way, so '
+    'both readings are accepted for later operations on that object',
     'vnet models the socket API (selftest/vnet_conformance)',
     'the default print handlers of status() are observed only through their '
     'protocol effects (stdout is captured and recorded, not judged)',
@@ -263,6 +332,47 @@ def _exc_rec(W, e):
             'str': str(e), 'sp': sp, 'sv': sv}
 
 
+def _invoke(conn, kind, hs, hp, statuses, pings):
+    """The API call of one operation (connect() or a plain status())."""
+    if kind == 'connect':
+        conn.connect()
+        return
+    skw = {}
+    for arg, mode, sink in (('handle_status', hs, statuses),
+                            ('handle_ping', hp, pings)):
+        if mode == 'custom':
+            skw[arg] = sink.append
+        elif mode == 'off':
+            skw[arg] = False
+        elif mode == 'none':
+            skw[arg] = None
+        # mode 'default': argument not passed at all
+        # (handle_status=None: print; handle_ping=False)
+    conn.status(**skw)
+
+
+def _snap_conns(W, lo):
+    """What the independent servers saw on the TCP connections lo.. ."""
+    cs = []
+    for vc in W.net.conns[lo:]:
+        srv = vc.server
+        d = {'gone': bool(vc.client_gone), 'c2s': len(vc.c2s),
+             's2c_frames': len(vc.frame_ends)}
+        if srv is not None:
+            d.update(hs=srv.handshake, login=srv.login_name,
+                     req=srv.status_requests, pings=len(srv.pings),
+                     errors=list(srv.errors), state=srv.state,
+                     frames=[(f[0], f[1]) for f in srv.frames],
+                     late=srv.bytes_after_gone)
+        cs.append(d)
+    return cs
+
+
+def _plain_pings(ps):
+    return [p if isinstance(p, (int, float)) and not isinstance(p, bool)
+            else repr(p) for p in ps]
+
+
 def body(W, case):
     kind = case['kind']
     host, port, username, auth = ENVS[case.get('env', 0)]
@@ -314,22 +424,8 @@ def body(W, case):
             conn = None
         if conn is not None and kind != 'ctor':
             try:
-                if kind == 'connect':
-                    conn.connect()
-                else:
-                    skw = {}
-                    for arg, mode, sink in (
-                            ('handle_status', case['hs'], obs['statuses']),
-                            ('handle_ping', case['hp'], obs['pings'])):
-                        if mode == 'custom':
-                            skw[arg] = sink.append
-                        elif mode == 'off':
-                            skw[arg] = False
-                        elif mode == 'none':
-                            skw[arg] = None
-                        # mode 'default': argument not passed at all
-                        # (handle_status=None: print; handle_ping=False)
-                    conn.status(**skw)
+                _invoke(conn, kind, case.get('hs'), case.get('hp'),
+                        obs['statuses'], obs['pings'])
             except Exception as e:
                 obs['call'] = (type(e).__name__, str(e))
             W.settle(1 if case.get('delivery') == 'byte' else None)
@@ -345,23 +441,115 @@ def body(W, case):
     obs['live'] = len(W.S.live())
     obs['nconns'] = len(W.net.conns)
     obs['refused'] = W.net.refused
-    cs = []
-    for i, vc in enumerate(W.net.conns):
-        srv = vc.server
-        d = {'gone': bool(vc.client_gone), 'c2s': len(vc.c2s),
-             's2c_frames': len(vc.frame_ends)}
-        if srv is not None:
-            d.update(hs=srv.handshake, login=srv.login_name,
-                     req=srv.status_requests, pings=len(srv.pings),
-                     errors=list(srv.errors), state=srv.state,
-                     frames=[(f[0], f[1]) for f in srv.frames],
-                     late=srv.bytes_after_gone)
-        cs.append(d)
-    obs['conns'] = cs
-    obs['pings'] = [p if isinstance(p, (int, float)) and
-                    not isinstance(p, bool) else repr(p)
-                    for p in obs['pings']]
+    obs['conns'] = _snap_conns(W, 0)
+    obs['pings'] = _plain_pings(obs['pings'])
     return obs
+
+
+def body_seq(W, case):
+    """Several operations, each on one of several Connection objects that
+    are all constructed before the first operation (case['late']: each
+    when it is first used).  Every operation gets its
+    own observation record of the same shape as body() returns."""
+    from vf.runner import ToolError
+    objs, ops = case['objects'], case['ops']
+    cur = {'beh': None, 'text': None, 'lo': 0}
+
+    def factory(vc):
+        i = vc.id - cur['lo']
+        if i >= MAXCONN:
+            raise ConnectionRefusedError(errno.ECONNREFUSED,
+                                         'vf: connection budget')
+        kw = {'status': {'json': cur['text'], 'pong': True}}
+        if i == 0 and cur['beh'][0] == 'close':
+            kw['close_after'] = cur['beh'][1]
+        srv = _Srv(vc, protoids.ids, W.rank, **kw)
+        W.servers.append(srv)
+        return srv
+    for o in objs:
+        host, port = ENVS[o.get('env', 0)][:2]
+        W.net.listen(host, port, factory)
+
+    saved = sys.stdout
+    sys.stdout = buf = io.StringIO()
+    out = []
+    try:
+        conns, sinks = [None] * len(objs), [None] * len(objs)
+
+        def construct(k):
+            o = objs[k]
+            host, port, username, auth = ENVS[o.get('env', 0)]
+            excs, exits = [], []
+            kw = {'username': username,
+                  'handle_exception': lambda e, info: excs.append(e),
+                  'handle_exit': lambda: exits.append(1)}
+            if auth:
+                kw['auth_token'] = _Token(PROFILE)
+            if o.get('allowed') is not None:
+                kw['allowed_versions'] = set(o['allowed'])
+            if o.get('initial') is not None:
+                kw['initial_version'] = o['initial']
+            try:
+                conns[k] = W.C.Connection(host, port, **kw)
+            except Exception as e:
+                raise _CtorRefused('ABC'[k], type(e).__name__, str(e))
+            sinks[k] = (excs, exits)
+        if not case.get('late'):
+            for k in range(len(objs)):
+                construct(k)
+        seen_exc = set()
+        for op in ops:
+            k = op['obj']
+            if conns[k] is None:
+                construct(k)        # ('late': at its first use)
+            conn = conns[k]
+            excs, exits = sinks[k]
+            # the object's previous conversation, if still open (a login
+            # that reached play, a query that was not closed), is ended by
+            # the user before the object is used again
+            if conn.connected or conn.networking_thread is not None or \
+                    conn.new_networking_thread is not None:
+                conn.disconnect()
+                W.settle()
+            beh = tuple(op['beh'])
+            cur.update(beh=beh, text=status_text(beh), lo=len(W.net.conns))
+            e0, x0, r0, o0 = len(excs), len(exits), W.net.refused, \
+                len(buf.getvalue())
+            obs = {'ctor': None, 'call': None, 'statuses': [], 'pings': [],
+                   'text': cur['text']}
+            try:
+                _invoke(conn, op['op'], op.get('hs'), op.get('hp'),
+                        obs['statuses'], obs['pings'])
+            except ToolError:
+                raise
+            except Exception as e:
+                obs['call'] = (type(e).__name__, str(e))
+            W.settle()
+            obs['stdout'] = buf.getvalue()[o0:]
+            obs['excs'] = [_exc_rec(W, e) for e in excs[e0:]]
+            obs['exits'] = len(exits) - x0
+            obs['conn_exc'] = (None if conn.exception is None
+                               else type(conn.exception).__name__)
+            new = [a for a in W.S.agents
+                   if a.exc is not None and id(a) not in seen_exc]
+            seen_exc.update(id(a) for a in new)
+            obs['thread_exc'] = ['%s: %s' % (type(a.exc).__name__, a.exc)
+                                 for a in new]
+            obs['live'] = len(W.S.live())
+            obs['nconns'] = len(W.net.conns) - cur['lo']
+            obs['refused'] = W.net.refused - r0
+            obs['conns'] = _snap_conns(W, cur['lo'])
+            obs['pings'] = _plain_pings(obs['pings'])
+            out.append(obs)
+    except _CtorRefused as e:
+        return {'ctor': e.args}
+    finally:
+        sys.stdout = saved
+    return out
+
+
+class _CtorRefused(Exception):
+    pass
 
 
 def execute(case):
@@ -371,6 +559,8 @@ def execute(case):
         kw['hold'] = True
     if d == 'raise':
         kw['send_after_close'] = 'raise'
+    if case['kind'] == 'seq':
+        return harness.run(lambda W: body_seq(W, case), horizon=80000, **kw)
     return harness.run(lambda W: body(W, case), horizon=20000, **kw)
 
 
@@ -472,9 +662,15 @@ def judge_connect(T, case, x):
             out.append(('unexpected-error', 'expected %s, but an exception '
                         'was reported: %r' % (_exp_text(exp), excs[:2])))
         want_n = 1 if kind == 'direct' else 2
-        if n != want_n:
-            out.append(('tcp-connections', '%d TCP connections were opened, '
-                        'expected %d (%s)' % (n, want_n, _exp_text(exp))))
+        n_login = len(login_conns)
+        if n != want_n or n_login != 1:
+            out.append(('tcp-connections', '%d TCP connections were opened '
+                        '(%d with a login handshake, %d with a status '
+                        'handshake or none), expected exactly %s (%s)'
+                        % (n, n_login, n - n_login,
+                           'one login connection' if kind == 'direct' else
+                           'one status connection followed by one login '
+                           'connection', _exp_text(exp))))
         if kind == 'direct':
             if conns:
                 login_conn(conns[0], exp[1])
@@ -660,7 +856,160 @@ def bad_class(T, bad):
     return 'known-unsupported-number' if bad in T.rank else 'unknown-number'
 
 
-def run_case(ctx, case):
+class _OpRun(object):
+    """One operation of a sequence, presented to the judges the way a
+    single-operation execution is."""
+    failure = None
+
+    def __init__(self, result):
+        self.result = result
+
+
+def _same_set(T, a, b):
+    na = None if a is None else {T.num(v) for v in a}
+    nb = None if b is None else {T.num(v) for v in b}
+    return na == nb
+
+
+def judge_seq(T, case, x):
+    """Every operation of a sequence judged by the single-operation judges,
+    as if its Connection object were fresh and alone.  The only memory the
+    model keeps per object: a connect() that is expected to end in a login
+    (the server's version, or the fallback) commits the object to that
+    version (connection.py narrows allowed_proto_versions), so a later
+    operation on the object is judged against that singleton set - or,
+    equally accepted, against the set given at construction.
+    -> [(op, sub-case, label, exp, problems, _OpRun)]"""
+    objs = case['objects']
+    cands = [[o.get('allowed')] for o in objs]
+    out = []
+    for op, obs in zip(case['ops'], x.result):
+        k = op['obj']
+        o = objs[k]
+        best = None
+        for al in cands[k]:
+            sub = {'kind': op['op'], 'allowed': al,
+                   'initial': o.get('initial'), 'beh': list(op['beh']),
+                   'env': o.get('env', 0), 'hs': op.get('hs'),
+                   'hp': op.get('hp')}
+            xi = _OpRun(obs)
+            if op['op'] == 'connect':
+                label, exp, probs = judge_connect(T, sub, xi)
+            else:
+                label, exp, probs = judge_status(T, sub, xi)
+            if best is None or not probs:
+                best = (op, sub, label, exp, probs, xi)
+            if not probs:
+                break
+        out.append(best)
+        if op['op'] == 'connect':
+            e0 = expect_connect(T, cands[k][0], o.get('initial'),
+                                tuple(op['beh']))
+            if e0[0] in ('login', 'fallback'):
+                cands[k] = [[e0[1]]]
+                if not _same_set(T, [e0[1]], o.get('allowed')):
+                    cands[k].append(o.get('allowed'))
+    return out
+
+
+def _op_text(T, objs, op):
+    """Stable class-level description of one operation of a sequence."""
+    o = objs[op['obj']]
+    bc = beh_class(T, o.get('allowed'), tuple(op['beh']))
+    t = '%s.%s' % ('ABC'[op['obj']], op['op'])
+    if op['op'] == 'status':
+        t += '(%s/%s)' % (op['hs'], op['hp'])
+    return '%s<%s>' % (t, bc)
+
+
+def run_seq_case(ctx, case, carry=None, note=''):
+    T = tables()
+    x = execute(case)
+    ctx.count()
+    ctx.traces += 1
+    ctx.note_distinct(1)
+    objs, ops = case['objects'], case['ops']
+    why = case['why'] + ('-late' if case.get('late') else '')
+    d = case.get('delivery', 'eager')
+    ctx.cls('delivery %s' % d)
+    if x.failure is not None:
+        ctx.outcome('sequence: ' + x.failure[0])
+        key = 'seq %s %s: %s' % (why, ' '.join(_op_text(T, objs, op)
+                                              for op in ops), x.failure[0])
+        ctx.violation(key, 'the client %ss: %s%s\n  case: %s'
+                      % (x.failure[0], x.failure[1], note,
+                         _case_text(case)), _carried(ctx, case, carry))
+        return [(x.failure[0], str(x.failure[1]))]
+    if isinstance(x.result, dict):
+        ctx.outcome('sequence: ctor-refused')
+        ctx.violation('seq %s: ctor' % why, 'constructing Connection object '
+                      '%s with valid versions raised %s: %s%s\n  case: %s'
+                      % (x.result['ctor'] + (note, _case_text(case))),
+                      _carried(ctx, case, carry))
+        return [('ctor', str(x.result['ctor']))]
+    steps = judge_seq(T, case, x)
+    all_probs = []
+    frames = 0
+    prev_exp = {}               # object -> (op kind, expected outcome)
+    used = {}
+    logged_in = set()
+    for i, (op, sub, label, exp, probs, xi) in enumerate(steps):
+        k, kind = op['obj'], op['op']
+        bc = beh_class(T, objs[k].get('allowed'), tuple(op['beh']))
+        ctx.outcome('%s: %s' % (kind, label))
+        ctx.cls('%s expect %s' % (kind, exp[0]))
+        if kind == 'status':
+            ctx.cls('status handlers %s/%s' % (op['hs'], op['hp']))
+        if k in prev_exp:
+            pk, pe = prev_exp[k]
+            if kind == 'status':
+                ctx.cls('reuse: status after a %s on the same object that '
+                        'ended: %s' % (pk, pe))
+            else:
+                ctx.cls('reuse: connect after %s on the same object'
+                        % ('a status' if pk == 'status' else
+                           'a connect that ended in a login'
+                           if pe in ('login', 'fallback') else
+                           'a connect that ended in an error'))
+            if used[k] >= 2:
+                ctx.cls('reuse: third operation on one object')
+        if len(objs) > 1:
+            if logged_in - {k}:
+                ctx.cls('objects: operation on one of %d objects constructed '
+                        '%s while another one is logged in'
+                        % (len(objs), 'at first use' if case.get('late')
+                           else 'up front'))
+            if any(j != k for j in prev_exp):
+                ctx.cls('objects: %s after another object\'s operation'
+                        % kind)
+        for c in xi.result['conns']:
+            frames += len(c.get('frames', ())) + c['s2c_frames']
+        ctx.state(('seq', why, kind, bc, d, label, xi.result['nconns'],
+                   prev_exp.get(k), len(objs)))
+        for check, text in probs:
+            key = 'seq %s %s | op %d %s %s expect=%s: %s' % (
+                why, ' '.join(_op_text(T, objs, o2) for o2 in ops[:i]),
+                i + 1, _op_text(T, objs, op), bc, exp[0], check)
+            ctx.violation(key, 'operation %d of the sequence (%s on object '
+                          '%s, judged as if the object were fresh and '
+                          'alone): %s%s\n  case: %s\n  observed in that '
+                          'operation: %s'
+                          % (i + 1, kind, 'ABC'[k], text, note,
+                             _case_text(case), _obs_text(xi)),
+                          _carried(ctx, case, carry))
+        all_probs += probs
+        logged_in.discard(k)
+        if kind == 'connect' and exp[0] in ('login', 'fallback', 'direct'):
+            logged_in.add(k)
+        prev_exp[k] = (kind, 'login' if exp[0] == 'direct' else exp[0])
+        used[k] = used.get(k, 0) + 1
+    ctx.transitions += frames
+    return all_probs
+
+
+def run_case(ctx, case, carry=None, note=''):
+    if case['kind'] == 'seq':
+        return run_seq_case(ctx, case, carry, note)
     T = tables()
     x = execute(case)
     ctx.count()
@@ -689,6 +1038,11 @@ def run_case(ctx, case):
                 {T.num(v) for v in case['allowed']}
             ctx.cls('fallback default %s allowed set'
                     % ('inside' if exp[1] in nums else 'outside'))
+            if exp[1] == T.latest(nums) and bc.startswith('close-'):
+                ctx.cls('fallback to default = newest allowed, %s'
+                        % ('no initial_version: ' + bc
+                           if case['initial'] is None else
+                           'initial_version names it: server closes'))
         if exp[0] != 'direct' and case['allowed'] is not None:
             nums = {T.num(v) for v in case['allowed']}
             if max(nums) != T.latest(nums):
@@ -720,13 +1074,43 @@ def run_case(ctx, case):
     for check, text in probs:
         key = '%s %s expect=%s: %s' % (kind, bc, exp[0] if exp else 'refusal',
                                        check)
-        ctx.violation(key, '%s\n  case: %s\n  observed: %s'
-                      % (text, _case_text(case),
-                         _obs_text(x)), case)
+        ctx.violation(key, '%s%s\n  case: %s\n  observed: %s'
+                      % (text, note, _case_text(case),
+                         _obs_text(x)), _carried(ctx, case, carry))
     return probs
 
 
+def _carried(ctx, case, carry):
+    """The case as recorded with a violation: plus the position of the
+    execution in its worker process (which chunks of the deterministic case
+    list the process had executed before), so that replay() can re-create
+    process-wide state carried over from earlier executions."""
+    if not carry or not (carry['chunks'] or carry['pos']):
+        return case
+    c = dict(case)
+    c['carry'] = dict(carry, tier=ctx.tier, seed=ctx.seed)
+    return c
+
+
 def _case_text(case):
+    if case['kind'] == 'seq':
+        return '%s; objects (%s): ' \
+            '%s; operations in order: %s; delivery=%s' % (
+                case['why'], 'each constructed at its first use'
+                if case.get('late') else
+                'all constructed before the first operation', ', '.join(
+                    '%s=Connection(%r, %r, allowed_versions=%r, '
+                    'initial_version=%r)' % (
+                        'ABC'[i], ENVS[o.get('env', 0)][0],
+                        ENVS[o.get('env', 0)][1], o.get('allowed'),
+                        o.get('initial'))
+                    for i, o in enumerate(case['objects'])),
+                '; '.join('%s.%s%s against a server that: %r' % (
+                    'ABC'[op['obj']], op['op'],
+                    '(handle_status:%s, handle_ping:%s)' % (op['hs'],
+                                                            op['hp'])
+                    if op['op'] == 'status' else '()', tuple(op['beh']))
+                    for op in case['ops']), case.get('delivery'))
     return ', '.join('%s=%r' % (k, case[k]) for k in sorted(case)
                      if k not in ('setkind', 'form'))
 
@@ -825,6 +1209,151 @@ def as_form(T, members, form):
         else:
             out.append(p)
     return out
+
+
+MODES = ['default', 'none', 'custom', 'off']
+MODES_DIAG = [('custom', 'custom'), ('off', 'off'), ('default', 'none'),
+              ('none', 'default')]
+
+
+def seq_alphabets(T, mem):
+    """Server behaviours by role for an object whose allowed set is `mem`
+    (list of numbers; None = every supported version)."""
+    nums = set(T.sup) if mem is None else set(mem)
+    order = sorted(nums, key=T.rank.get)
+    inR = [p for p in T.R if p in nums]
+    lo, hi = (inR[3] if mem is None else order[0]), order[-1]
+    mid = inR[len(inR) // 2] if mem is None else order[len(order) // 2]
+    notal = [p for p in T.R if p not in nums]
+    unsup = T.unsup[len(T.unsup) // 2]
+
+    def P(p, name=True):
+        return ('proto', p, T.reported_name(p) if name else None)
+    A = {'lo': P(lo), 'hi': P(hi), 'mid': P(mid), 'unsup': P(unsup),
+         'unknown': ('proto', 9999, None),
+         'notal': P(notal[len(notal) // 2]) if notal else None}
+    return A
+
+
+def seq_cases(ctx, T):
+    """REUSE: 2-3 operations on ONE Connection object.  OBJECTS: 2-3
+    Connection objects constructed up front with the same allowed set, used
+    alternately.  Every operation is judged like a single-operation case."""
+    R = T.R
+    th = ctx.thorough
+    cases = []
+
+    def conn_op(k, beh):
+        return {'obj': k, 'op': 'connect', 'beh': list(beh)}
+
+    def stat_op(k, beh, hs, hp):
+        return {'obj': k, 'op': 'status', 'beh': list(beh), 'hs': hs,
+                'hp': hp}
+
+    def S(why, objects, ops, delivery, late=False):
+        c = {'kind': 'seq', 'why': why, 'objects': objects, 'ops': ops,
+             'delivery': delivery}
+        if late:
+            c['late'] = True
+        cases.append(c)
+
+    # ---- REUSE ----------------------------------------------------------
+    configs = [{'allowed': [R[1], R[-1]], 'initial': None, 'env': 0},
+               {'allowed': None, 'initial': None, 'env': 0},
+               {'allowed': list(R), 'initial': 340, 'env': 1}]
+    if th:
+        configs += [
+            {'allowed': [PRE | 3, 754], 'initial': None, 'env': 0},
+            {'allowed': list(R[:6]), 'initial': None, 'env': 2},
+            {'allowed': [T.first_name(R[1]), T.last_name(R[-1])],
+             'initial': T.first_name(340), 'env': 3},
+            {'allowed': None, 'initial': R[0], 'env': 4}]
+    for ci, cfg in enumerate(configs):
+        mem = None if cfg['allowed'] is None else \
+            [T.num(v) for v in cfg['allowed']]
+        A = seq_alphabets(T, mem)
+        closes = [('close', w) for w in ('connect', 'handshake', 'request')]
+        # first conversations: ending in an error, and ending well
+        f_connect = [A['lo'], A['unsup'], A['unknown'], ('empty',),
+                     ('nover',)] + closes
+        if A['notal']:
+            f_connect.append(A['notal'])
+        f_status = [A['hi'], ('empty',), A['unknown'], ('close', 'connect'),
+                    ('close', 'request'), ('close', 'response')]
+        first = [conn_op(0, b) for b in f_connect] + \
+            [stat_op(0, b, hs, hp) for b in f_status
+             for hs, hp in (('custom', 'custom'), ('off', 'default'))]
+        # second operations
+        s_behs = [('empty',), ('close', 'request'), ('close', 'response'),
+                  ('close', 'pong')]
+        second = [stat_op(0, A['hi'], hs, hp) for hs in MODES
+                  for hp in MODES]
+        second += [stat_op(0, b, hs, hp) for b in s_behs
+                   for hs, hp in ([(a, b_) for a in MODES for b_ in MODES]
+                                  if th else MODES_DIAG)]
+        g_connect = [A['hi'], A['lo'], A['unsup'], ('empty',),
+                     ('close', 'request'), ('nover',)]
+        if A['notal']:
+            g_connect.append(A['notal'])
+        second += [conn_op(0, b) for b in g_connect]
+        for d in ('eager', 'lazy'):
+            for f in first:
+                for g in second:
+                    S('reuse', [cfg], [f, g], d)
+        # third operations
+        if ci < 2 or th:
+            second3 = [stat_op(0, A['hi'], 'custom', 'custom'),
+                       stat_op(0, A['hi'], 'off', 'off'),
+                       stat_op(0, ('close', 'request'), 'default', 'none'),
+                       conn_op(0, A['unsup']), conn_op(0, ('empty',)),
+                       conn_op(0, A['lo'])]
+            third = [stat_op(0, A['hi'], hs, hp)
+                     for hs, hp in MODES_DIAG[:3] + [('custom', 'default')]]
+            third += [stat_op(0, ('close', 'request'), 'custom', 'custom'),
+                      conn_op(0, A['mid']), conn_op(0, A['unsup'])]
+            for d in (('eager', 'lazy') if th else ('eager',)):
+                for f in first:
+                    for g in second3:
+                        for h in third:
+                            S('reuse', [cfg], [f, g, h], d)
+
+    # ---- OBJECTS --------------------------------------------------------
+    sets2 = [None, [R[1], R[-1]], list(R)]
+    sets3 = [None, list(R)]
+    if th:
+        sets2 += [list(R[:6]), [PRE | 3, 754]]
+        sets3 += [list(R[:6])]
+    envs = (0, 1, 4)
+
+    def obj_ops(mem, k):
+        """The operations object k may be given: a negotiation that ends in
+        a login with a version that differs per object, one that is
+        refused, one that falls back, and two plain queries."""
+        A = seq_alphabets(T, mem)
+        ver = [A['lo'], A['hi'], A['mid']][k]
+        if mem is None:
+            ver = ('proto', R[(3, 5, 1)[k]],
+                   T.reported_name(R[(3, 5, 1)[k]]))
+        return [conn_op(k, ver), conn_op(k, A['unsup']),
+                conn_op(k, ('close', 'request')),
+                stat_op(k, A['hi'], 'custom', 'custom'),
+                stat_op(k, A['hi'], 'off', 'none')]
+    pats2 = [(0, 1), (0, 1, 0)] + ([(0, 1, 0, 1), (0, 0, 1), (0, 1, 1)]
+                                   if th else [])
+    pats3 = [(0, 1, 2)] + ([(0, 1, 2, 0), (0, 1, 2, 1)] if th else [])
+    for nobj, sets, pats in ((2, sets2, pats2), (3, sets3, pats3)):
+        for mem in sets:
+            objects = [{'allowed': mem, 'initial': None, 'env': envs[k]}
+                       for k in range(nobj)]
+            for pat in pats:
+                for ops in itertools.product(*[obj_ops(mem, k)
+                                               for k in pat]):
+                    for d in ('eager', 'lazy'):
+                        S('objects', objects, [dict(o) for o in ops], d)
+                    if nobj == 2 or th:
+                        S('objects', objects, [dict(o) for o in ops],
+                          'eager', late=True)
+    return cases
 
 
 def enumerate_cases(ctx):
@@ -1009,6 +1538,20 @@ def enumerate_cases(ctx):
             cases.append({'kind': 'ctor', 'allowed': al, 'initial': ini,
                           'bad': bad, 'where': where, 'aslist': aslist})
 
+    # J: the default version is the NEWEST allowed one (no initial_version,
+    #    or initial_version naming it) and the status query goes unanswered:
+    #    exactly one status connection, then one login connection
+    for sk, mem in multi:
+        top = T.latest(set(T.sup) if mem is None else set(mem))
+        for ini in (None, top, T.last_name(top)):
+            for b in [('close', w) for w in ('connect', 'handshake',
+                                             'request')] + [('nover',)]:
+                for d in ('eager', 'lazy'):
+                    C(sk, mem, 'num', ini, b, d)
+
+    # sequences: re-used objects, several objects
+    cases += seq_cases(ctx, T)
+
     # de-duplicate, deterministic order, seed permutes
     seen, uniq = set(), []
     for c in cases:
@@ -1021,27 +1564,57 @@ def enumerate_cases(ctx):
     return uniq
 
 
-def w_chunk(ctx, chunk):
-    for case in chunk:
-        run_case(ctx, case)
+CHUNK = 150
+_DONE_CHUNKS = []        # chunks this (worker) process has executed, in order
+
+
+def w_chunk(ctx, task):
+    cid, chunk = task
+    for pos, case in enumerate(chunk):
+        run_case(ctx, case, {'chunks': list(_DONE_CHUNKS), 'chunk': cid,
+                             'pos': pos})
+    _DONE_CHUNKS.append(cid)
+
+
+def chunked(cases):
+    return [(j, cases[i:i + CHUNK])
+            for j, i in enumerate(range(0, len(cases), CHUNK))]
 
 
 def run(ctx):
     T = tables()
     cases = enumerate_cases(ctx)
-    n = 150
-    chunks = [cases[i:i + n] for i in range(0, len(cases), n)]
-    ctx.pmap(w_chunk, chunks)
+    ctx.pmap(w_chunk, chunked(cases))
     ctx.extra['R'] = list(T.R)
     ctx.extra['cases_by_kind'] = {
         k: sum(1 for c in cases if c['kind'] == k)
-        for k in ('connect', 'status', 'ctor')}
+        for k in ('connect', 'status', 'ctor', 'seq')}
+    ctx.extra['sequences'] = {
+        '%s, %d object(s), %d operation(s)' % (w, no, nop): sum(
+            1 for c in cases if c['kind'] == 'seq' and c['why'] == w
+            and len(c['objects']) == no and len(c['ops']) == nop)
+        for w, no, nop in sorted(set(
+            (c['why'], len(c['objects']), len(c['ops']))
+            for c in cases if c['kind'] == 'seq'))}
     ctx.sample({'kind': 'connect', 'allowed': [47, 757], 'initial': None,
                 'server': 'reports 340 (1.12.2)', 'expected':
                 'VersionMismatch: supported, but not allowed'})
     ctx.sample({'kind': 'connect', 'allowed': [47, 757], 'initial': 340,
                 'server': 'closes after the status request', 'expected':
                 'fallback login with 340 on a 2nd connection'})
+    ctx.sample({'kind': 'sequence (reuse)', 'object':
+                'Connection(allowed_versions={47, 757})', 'operations':
+                'connect() against a server reporting 340; then status('
+                'custom handlers) on the SAME object', 'expected':
+                'VersionMismatch reported once for the first; the second '
+                'judged like a fresh object: handshake 757, handler once, '
+                'ping, closed, exit callback once'})
+    ctx.sample({'kind': 'sequence (objects)', 'objects':
+                'A, B = Connection(...) twice, all versions allowed, both '
+                'constructed first', 'operations': 'A.connect() (server '
+                'reports 340); B.status(); A.status()', 'expected':
+                'B\'s handshake carries 757 (its own latest), A logs in '
+                'with 340'})
     ctx.sample({'kind': 'status', 'handle_status': 'custom',
                 'handle_ping': False, 'server': '{}', 'expected':
                 'handler called once with {}, no ping, closed, exit once'})
@@ -1060,7 +1633,29 @@ def run(ctx):
             'reported name denotes another protocol; expect mismatch',
             'duplicate members; expect direct',
             'duplicate members; expect login',
-            'duplicate members; expect mismatch']
+            'duplicate members; expect mismatch',
+            'reuse: third operation on one object',
+            'reuse: connect after a status on the same object',
+            'reuse: connect after a connect that ended in a login on the '
+            'same object',
+            'reuse: connect after a connect that ended in an error on the '
+            'same object',
+            'objects: operation on one of 2 objects constructed up front '
+            'while another one is logged in',
+            'objects: operation on one of 3 objects constructed up front '
+            'while another one is logged in',
+            'objects: operation on one of 2 objects constructed at first use '
+            'while another one is logged in',
+            'objects: status after another object\'s operation',
+            'objects: connect after another object\'s operation',
+            'fallback to default = newest allowed, initial_version names it: '
+            'server closes'] + [
+            'reuse: status after a %s on the same object that ended: %s' % pe
+            for pe in (('connect', 'mismatch'), ('connect', 'invalid'),
+                       ('connect', 'fallback'), ('connect', 'login'),
+                       ('status', 'done'), ('status', 'error'))] + [
+            'fallback to default = newest allowed, no initial_version: '
+            'close-%s' % w for w in ('connect', 'handshake', 'request')]
     missing = [k for k in need if not ctx.classes.get(k)]
     if missing and not ctx.violations:
         from vf.runner import ToolError
@@ -1068,4 +1663,28 @@ def run(ctx):
 
 
 def replay(ctx, case):
-    run_case(ctx, case)
+    """The case alone, in this fresh process.  If it passes alone and was
+    recorded with its position in a worker process, the executions that
+    preceded it there are repeated first (not judged) and the case is run
+    again: a failure that needs state carried over from earlier Connection
+    objects of the process is reproduced that way."""
+    case = dict(case)
+    carry = case.pop('carry', None)
+    scratch = ctx.fork()
+    if run_case(scratch, case) or not carry:
+        ctx.absorb(scratch)
+        return
+    from vf.runner import Ctx
+    ectx = Ctx(ctx.pid, str(carry['tier']), int(carry['seed']), LEVEL)
+    chunks = dict(chunked(enumerate_cases(ectx)))
+    before = []
+    for cid in carry['chunks']:
+        before += chunks[int(cid)]
+    before += chunks[int(carry['chunk'])][:int(carry['pos'])]
+    for c in before:
+        execute(c)
+    run_case(ctx, case, note=(
+        '\n  NOT reproducible in a fresh process: the case fails only after '
+        'the %d executions that preceded it in its worker process (state '
+        'carried over from earlier Connection objects of the process)'
+        % len(before)))
